@@ -368,6 +368,27 @@ class ShapeOrigins(PathOriginsOv):
                 return r
         return super()._site(local, site, depth, stack)
 
+    def of_local(self, local, block, idx, depth=0, stack=()):
+        """a string from which the first character was removed in place (`s.remove(0)`) earlier on the path reads as
+        the string without its first character (the evaluator only accepts the cut at a token boundary)"""
+        base = super().of_local(local, block, idx, depth, stack)
+        if block not in self.pos:
+            return base
+        from .util import Vars
+        if not hasattr(self, "_vars"):
+            self._vars = Vars(self.body)
+        k = 0
+        here = self.pos[block]
+        for b2 in self.path[: here + (1 if idx == "t" else 0)]:
+            if b2 == block and idx != "t":
+                continue
+            t2 = self.body.blocks[b2]["term"]
+            if t2["k"] == "call" and callee_name(t2["f"], self.fb).endswith("String::remove") and len(t2["args"]) == 2 and self._vars.root_key(t2["args"][0]) == ("L", local) and t2["args"][1].get("int") == "0" and self.pos[b2] < here + (1 if idx == "t" else 0) and b2 != block:
+                k += 1
+        for _ in range(k):
+            base = ("call", "core::ops::index::Index::index", (base, ("agg", "core::ops::range::RangeFrom", (("const", "usize", 1),))))
+        return base
+
 
 def decode_table(body, fb, inputs, literals, mutators, limit=400):
     """inputs: name -> token tuple.  mutators: callee name -> function(value) applied to the result local when the
